@@ -345,3 +345,40 @@ V('c08-push-segments-too', 'C08', 'hl7apy/parser.py',
   "        elif c[3] == \"GRP\":\n            groups.append(c)", "        else:\n            groups.append(c)", rule='C08-A')
 V('c08-twin-rename-loopvar', 'C08', 'hl7apy/parser.py', "        for g in groups:\n            parents_ref.append((g[0], g[1]))",
   "        for grp in groups:\n            g = grp\n            parents_ref.append((grp[0], grp[1]))", expect='clean')
+
+# ---------------------------------------------------------------- C05
+V('c05-strict-branch-repairs', 'C05', 'hl7apy/core.py',
+  "            if Validator.is_strict(self.validation_level):  # cannot be created if validation is strict\n                raise ChildNotValid(name, self)\n        return element\n\n    def add(self, obj):",
+  "            if Validator.is_strict(self.validation_level):  # cannot be created if validation is strict\n                self.structure_by_name = None\n        return element\n\n    def add(self, obj):",
+  rule='C05-L')
+V('c05-new-tolerant-only-branch', 'C05', 'hl7apy/core.py',
+  "        valid = child.classname in (c.__name__ for c in self.child_classes.values())\n        if valid:\n            if child.name is not None:\n                self.find_child_reference(child.name)\n        return valid",
+  "        valid = child.classname in (c.__name__ for c in self.child_classes.values())\n        if Validator.is_tolerant(self.validation_level):\n            self.repetitions[child.name] = (0, -1)\n        if valid:\n            if child.name is not None:\n                self.find_child_reference(child.name)\n        return valid",
+  rule='C05-L')
+V('c05-level-as-value', 'C05', 'hl7apy/core.py',
+  "        child_class = list(self.child_classes.values())[0]\n        separator = encoding_chars.get(child_class.__name__.upper(), '')",
+  "        child_class = list(self.child_classes.values())[0]\n        strict = Validator.is_strict(self.validation_level)\n        separator = encoding_chars.get(child_class.__name__.upper(), '')",
+  rule='C05-L')
+V('c05-cardinality-off-by-one', 'C05', 'hl7apy/core.py',
+  "                    if len(self.indexes.get(child.name, [])) + 1 > int(max_rep) and max_rep > -1:",
+  "                    if len(self.indexes.get(child.name, [])) > int(max_rep) and max_rep > -1:", rule='C05-K')
+V('c05-validator-ge', 'C05', 'hl7apy/validation.py', "                elif children_num > max_repetitions:",
+  "                elif children_num >= max_repetitions:", rule='C05-K')
+V('c05-cardinality-under-tolerant', 'C05', 'hl7apy/core.py',
+  "                if Validator.is_strict(self.element.validation_level):\n                    min_rep, max_rep",
+  "                if not Validator.is_strict(self.element.validation_level):\n                    min_rep, max_rep", rule='C05-L')
+V('c05-datatype-drops-level', 'C05', 'hl7apy/base_datatypes.py',
+  "        super(ST, self).__init__(value, 199, highlights, validation_level)", "        super(ST, self).__init__(value, 199, highlights)",
+  rule='C05-M')
+V('c05-textual-drops-level', 'C05', 'hl7apy/base_datatypes.py',
+  "        super(TextualDataType, self).__init__(value, max_length,\n                                              validation_level)",
+  "        super(TextualDataType, self).__init__(value, max_length)", rule='C05-M')
+V('c05-maxlength-guard-gone', 'C05', 'hl7apy/base_datatypes.py',
+  "        if Validator.is_strict(self.validation_level):\n            if self.max_length is not None and len('{0}'.format(value)) > self.max_length:\n                raise MaxLengthReached(value, self.max_length)\n",
+  "", rule='C05-M')
+V('c05-strict-unknown-child-allowed', 'C05', 'hl7apy/core.py',
+  "        # cannot add an unknown child with strict validation\n        if child.name is None and Validator.is_strict(self.validation_level):\n            return False\n        valid = super(Segment, self)._is_valid_child(child)",
+  "        valid = super(Segment, self)._is_valid_child(child)", expect='violation')
+V('c05-fix-group-order', 'C05', 'hl7apy/core.py',
+  "        if Validator.is_strict(self.validation_level):\n            children = self.children.get_ordered_children()\n        else:\n            children = self.children.get_children()",
+  "        children = self.children.get_children()", expect='fixed:C05-L|core.Group._get_children')
